@@ -8,6 +8,7 @@ package verifsim
 // point) after the scheduler hook has let it through.
 
 import (
+	"context"
 	"fmt"
 	"net"
 	"regexp"
@@ -98,6 +99,7 @@ type MyHost struct {
 	Stmts   []string // statement log "by:stmt(arg)=res"
 	Events  []string // SLAVESIDE_DISABLED events "schema.name"
 	ReplMonTS float64 // unix ts in repl_mon table; 0 = table missing
+	KillIneffective bool // KILL does not release sessions waiting for a semi-sync ack (stuck commits)
 }
 
 // HostView is the cheap projected state written into traces.
@@ -320,7 +322,8 @@ func (w *MyWorld) Dial(addr string, deadline time.Time) (net.Conn, error) {
 		if d > 0 {
 			time.Sleep(d)
 		}
-		return nil, fmt.Errorf("dial tcp %s: i/o timeout", addr)
+		// like net's timeout error, it matches context.DeadlineExceeded
+		return nil, fmt.Errorf("dial tcp %s: i/o timeout: %w", addr, context.DeadlineExceeded)
 	}
 	cl, sv := net.Pipe()
 	w.connID++
@@ -867,6 +870,9 @@ func (w *MyWorld) execute(inst, host, q string, lockWait int) (*MyResult, *MyErr
 	call := &SQLCall{By: inst, At: host, Stmt: si.kind, Arg: si.arg, Mut: si.mut}
 	w.mu.Lock()
 	blocked := w.blocked[inst+">"+host]
+	if hh := w.Hosts[host]; hh != nil && hh.Net == "isolated" {
+		blocked = true // an isolated host answers nothing, on established connections either
+	}
 	hook := w.Hook
 	w.mu.Unlock()
 	if blocked {
@@ -1155,7 +1161,9 @@ func (w *MyWorld) applyLocked2(h *MyHost, si stmtInfo, inst string) (*MyResult, 
 	case "SetSyncBinlog":
 		h.SyncBin, _ = strconv.Atoi(si.arg)
 	case "Kill":
-		w.releasePendingNoAckLocked(h)
+		if !h.KillIneffective {
+			w.releasePendingNoAckLocked(h)
+		}
 	case "EnableEvent":
 		if len(h.Events) > 0 {
 			h.Events = h.Events[1:]
